@@ -104,7 +104,7 @@ class Schema:
         return fn("F_" + field, Ref, sort)
 
     def has_field(self, o: Opaque, attr: str) -> bool:
-        return attr in FIELDS or attr == "_numpy_func"
+        return attr in FIELDS or attr in ("_numpy_func", "matrix")
 
     def field_static_cls(self, ip, o: Opaque, attr: str) -> str:
         owner = ip.exact_class(o) or o.cls
@@ -114,6 +114,12 @@ class Schema:
         if attr == "_numpy_func":
             op = self.read_field(ip, o, "op")
             return self.ufunc_of_op(ip, op)
+        if attr == "matrix" and (ip.exact_class(o) or o.cls) == "QuadraticForm":
+            # numeric square matrix Q of a quadratic form (n = length of the vector, checked by the constructor)
+            n = fn("VLEN", Ref, I)(self.F("vector", Ref)(o.ref))
+            return SArr(fn("MAT_matrix", Ref, sym.RealMat)(o.ref), shape=(n, n))
+        if attr == "matrix":
+            return Opaque(self.F("matrix", Ref)(o.ref), "object")
         tag, _cls, mutable = FIELDS[attr]
         self.touch(ip, o)
         if tag == "ref":
@@ -502,3 +508,9 @@ class Schema:
             m = ip.models.len_term(s.n)
             n = z3.If(n <= m, n, m)          # zip truncates to the shortest (that is exactly what C11 must exclude)
         return SSeq(z3.simplify(n), lambda k: tuple(s.get(k) for s in seqs), "list", "zip")
+
+    def symbolic_dict_comprehension(self, ip, e, fr, S):
+        h = getattr(ip.reg, "dict_comprehension_hook", None)
+        if h is None:
+            raise Unsupported("dict comprehension over a symbolic-length sequence")
+        return h(ip, e, fr, S)
